@@ -184,6 +184,15 @@ class C09(Prop):
                                 and t0 - 1e-9 <= p.death <= e["now"] + 1e-9:
                             racing = "/racing-break"
                             break
+                if not racing:
+                    # ... or that died shortly before, the manager thread still being busy with the break when
+                    # the call began
+                    at_call = [r for r in res.obs.data.get("reusable_at_call", [])
+                               if r["thread"] == e["thread"] and b <= r["step"] <= e["step"]]
+                    if at_call and at_call[0]["mgr_alive"] and any(
+                            p.status is not None and p.status != ("exit", 0) and p.death is not None
+                            and p.death <= e["now"] + 1e-9 for p in X.worker_procs(res)):
+                        racing = "/racing-break"
                 out.append(V(pid, "C09/get-reusable-executor-raised/%s%s" % (e["r"]["e"]["type"], racing),
                              "kw=%r: %s" % (e["o"]["kw"], e["r"]["e"]["msg"][:200])))
         # every thread's tasks complete with their values (deaths make BrokenProcessPool legal)
